@@ -23,11 +23,23 @@ type SolverCfg struct {
 
 func (o *Obligation) script() string {
 	b := o.bank
+	var hyps []*Term
+	for _, a := range o.axioms {
+		if !a.IsTrue() {
+			hyps = append(hyps, a)
+		}
+	}
+	for _, a := range o.Hyps {
+		if !a.IsTrue() {
+			hyps = append(hyps, a)
+		}
+	}
 	var asserts []*Term
-	asserts = append(asserts, o.axioms...)
-	asserts = append(asserts, o.Hyps...)
-	if !o.Cover {
-		asserts = append(asserts, b.Not(o.Goal))
+	if o.Cover {
+		asserts = hyps
+	} else {
+		ng := b.Not(o.Goal)
+		asserts = append(sliceHyps(hyps, ng), ng)
 	}
 	var ins []*Term
 	for _, nt := range o.inputs {
@@ -35,8 +47,82 @@ func (o *Obligation) script() string {
 			ins = append(ins, nt.T)
 		}
 	}
-	s, _ := b.Script(asserts, ins, nil)
+	s, logic := b.Script(asserts, ins, nil)
+	if logic != "ALL" {
+		o.logic = logic
+	}
 	return s
+}
+
+// symbolsOf collects free variables and uninterpreted function names.
+func symbolsOf(t *Term, memo map[*Term]map[string]bool) map[string]bool {
+	if m, ok := memo[t]; ok {
+		return m
+	}
+	m := map[string]bool{}
+	memo[t] = m
+	switch t.Op {
+	case "var":
+		m[t.Name] = true
+	case "app":
+		m["@"+t.Name] = true
+	}
+	for _, a := range t.Args {
+		for k := range symbolsOf(a, memo) {
+			m[k] = true
+		}
+	}
+	for _, p := range t.Pats {
+		for _, a := range p {
+			for k := range symbolsOf(a, memo) {
+				m[k] = true
+			}
+		}
+	}
+	return m
+}
+
+// sliceHyps keeps the hypotheses connected to the goal through shared
+// symbols (dropping hypotheses is sound: it only weakens the assumptions).
+// Quantified hypotheses (axioms) are kept whenever they share a function
+// symbol with the relevant set.
+func sliceHyps(hyps []*Term, goal *Term) []*Term {
+	memo := map[*Term]map[string]bool{}
+	rel := map[string]bool{}
+	for k := range symbolsOf(goal, memo) {
+		rel[k] = true
+	}
+	keep := make([]bool, len(hyps))
+	for changed := true; changed; {
+		changed = false
+		for i, h := range hyps {
+			if keep[i] {
+				continue
+			}
+			syms := symbolsOf(h, memo)
+			hit := len(syms) == 0
+			for k := range syms {
+				if rel[k] {
+					hit = true
+					break
+				}
+			}
+			if hit {
+				keep[i] = true
+				changed = true
+				for k := range syms {
+					rel[k] = true
+				}
+			}
+		}
+	}
+	var out []*Term
+	for i, h := range hyps {
+		if keep[i] {
+			out = append(out, h)
+		}
+	}
+	return out
 }
 
 // trivial reports whether the obligation is decided syntactically.
@@ -120,10 +206,19 @@ func solve(o *Obligation, cfg *SolverCfg, idx int) {
 	}
 	script := o.smt
 	o.smt = ""
+	defer func() {
+		if (o.Cover && o.Status != "sat") || (!o.Cover && o.Status != "unsat") {
+			o.smtKeep = script
+		}
+	}()
 	base := filepath.Join(cfg.WorkDir, fmt.Sprintf("o%05d", idx))
 	f1 := base + ".smt2"
 	f2 := base + ".cvc5.smt2"
-	if err := os.WriteFile(f1, []byte(script), 0o644); err != nil {
+	z3script := script
+	if o.logic != "" {
+		z3script = "(set-logic " + o.logic + ")\n" + script
+	}
+	if err := os.WriteFile(f1, []byte(z3script), 0o644); err != nil {
 		o.Status = "error"
 		o.Output = err.Error()
 		return
@@ -226,6 +321,36 @@ func solve(o *Obligation, cfg *SolverCfg, idx int) {
 }
 
 func solveAll(obls []*Obligation, cfg *SolverCfg) {
+	// phase 1: batches and obligations outside batches
+	var p1 []*Obligation
+	for _, o := range obls {
+		if o.batch != nil {
+			p1 = append(p1, o.batch)
+		}
+		if o.inBatch == nil {
+			p1 = append(p1, o)
+		}
+	}
+	solveList(p1, cfg, 0)
+	// phase 2: members of batches that were not discharged as a whole
+	var p2 []*Obligation
+	for _, o := range obls {
+		if o.inBatch == nil {
+			continue
+		}
+		bt := o.inBatch
+		if bt.Status == "unsat" {
+			o.Status, o.Solver, o.done = "unsat", bt.Solver+"(batch)", true
+			o.Seconds = bt.Seconds / float64(len(bt.members))
+			o.smt = ""
+			continue
+		}
+		p2 = append(p2, o)
+	}
+	solveList(p2, cfg, len(p1))
+}
+
+func solveList(obls []*Obligation, cfg *SolverCfg, base int) {
 	os.MkdirAll(cfg.WorkDir, 0o755)
 	jobs := cfg.Jobs
 	if jobs <= 0 {
@@ -242,10 +367,10 @@ func solveAll(obls []*Obligation, cfg *SolverCfg) {
 					defer func() {
 						if r := recover(); r != nil {
 							obls[i].Status = "error"
-							obls[i].Output = fmt.Sprint("engine panic while printing: ", r)
+							obls[i].Output = fmt.Sprint("engine panic: ", r)
 						}
 					}()
-					solve(obls[i], cfg, i)
+					solve(obls[i], cfg, base+i)
 				}()
 			}
 		}()
